@@ -7,6 +7,7 @@ structure Support where
   version : Nat
   avail : Bool
   scen : List Nat
+  sub : Nat := 0        -- document sub-revision (interned)
 deriving DecidableEq, Repr
 
 structure Info where
@@ -58,5 +59,9 @@ def remove : Reg → List Nat → Nat → Nat → Reg
     else i :: remove rest ent actor name
 
 def removeAll (r : Reg) (ent : List Nat) : Reg := r.filter (·.ent ≠ ent)
+
+/-- processReadUseCaseData: the reply to a `nodeManagementUseCaseData` read carries the stored function data
+    (`fd.ReplyCmdType(false)`), nothing is filtered or recomputed -/
+def readReply (r : Reg) : Reg := r
 
 end Spine.UC
